@@ -141,6 +141,11 @@ Theorem C15_absolute_clip_repaired : absclip_at true = (false, true).
 Proof. exact arnoldi_absolute_clip_repaired. Qed.
 Print Assumptions C15_absolute_clip_repaired.
 
+(* flag arnoldi_start_dtype_cast: run of the model on the start vector as the pinned code stores it (imaginary part dropped) *)
+Theorem C15_start_dtype_cast_refuted : astart_cast_bad true = true /\ astart_cast_bad false = false.
+Proof. exact arnoldi_start_dtype_cast_refuted. Qed.
+Print Assumptions C15_start_dtype_cast_refuted.
+
 Theorem C15_batch_shared_stop_refuted : abatch_bad = true.
 Proof. exact arnoldi_batch_shared_stop_refuted. Qed.
 Print Assumptions C15_batch_shared_stop_refuted.
